@@ -9,6 +9,30 @@ fn tmp_path(name: &str) -> String {
     format!("{}/{}", dir, name)
 }
 
+/// length of what is about to be written (the emission of the trees plus the settings lines): used only to
+/// prepare a pre-existing file of exactly that length
+fn content_len(g: &G, trees: &[Scad]) -> usize {
+    let settings = match g {
+        G::None => String::new(),
+        G::Fa(a) => format!("$fa={};\n", a),
+        G::Fs(s) => format!("$fs={};\n", s),
+        G::FaFs(a, s) => format!("$fa={};\n$fs={};\n", a, s),
+        G::Fn(n) => format!("$fn={};\n", n),
+    };
+    let body = std::panic::catch_unwind(|| trees.iter().map(|t| format!("{}", t).len()).sum::<usize>()).unwrap_or(0);
+    settings.len() + body
+}
+
+fn prefill_len(path: &str, kind: u64, same_len: usize) {
+    if kind == 4 {
+        // a file of exactly the length of the new content but different bytes: a writer that decides by size
+        // whether anything changed keeps it
+        std::fs::write(path, vec![b'#'; same_len]).unwrap();
+    } else {
+        prefill(path, kind);
+    }
+}
+
 fn prefill(path: &str, kind: u64) {
     match kind {
         0 => {
@@ -40,7 +64,7 @@ pub fn run_file(g: G, trees: Vec<Scad>, pre: u64, stack_mb: usize, id: u64) -> (
     let req = format!("file {} {}", gt, dump_all(&trees));
     let mut r = Res::new();
     let path = tmp_path(&format!("c13_{}.scad", id));
-    prefill(&path, pre);
+    prefill_len(&path, pre, content_len(&g, &trees));
     let fmt: String = {
         let ts2 = trees.clone();
         guard(move || {
@@ -101,7 +125,7 @@ fn run_save(tree: Scad, pre: u64, id: u64) -> (String, Res) {
     let req = format!("save {}", d);
     let mut r = Res::new();
     let path = tmp_path(&format!("c13_save_{}.scad", id));
-    prefill(&path, pre);
+    prefill_len(&path, pre, content_len(&G::None, std::slice::from_ref(&tree)));
     let fmt = {
         let t2 = tree.clone();
         guard(move || ts(&format!("{}", t2)))
@@ -161,7 +185,7 @@ pub fn dup_stream(rng: &mut Rng, n: u64, id: &mut u64, out: &mut Out) {
             3 => G::FaFs(g.num(rng), g.num(rng)),
             _ => G::Fn(g.int(rng)),
         };
-        let (q, r) = run_file(setting, trees, rng.below(4), 8, *id);
+        let (q, r) = run_file(setting, trees, rng.below(5), 8, *id);
         out.case(q, r);
     }
 }
@@ -182,7 +206,7 @@ pub fn many_children(rng: &mut Rng, thorough: bool, id: &mut u64, out: &mut Out)
                 3 => G::FaFs(g.num(rng), g.num(rng)),
                 _ => G::Fn(g.int(rng)),
             };
-            let (q, r) = run_file_many(setting, trees, rng.below(4), *id);
+            let (q, r) = run_file_many(setting, trees, rng.below(5), *id);
             out.case(q, r);
         }
     }
@@ -201,7 +225,7 @@ fn run_file_many(g: G, trees: Vec<Scad>, pre: u64, id: u64) -> (String, Res) {
     let req = format!("file {} {}", gt, dump_all(&trees));
     let mut r = Res::new();
     let path = tmp_path(&format!("c13_many_{}.scad", id));
-    prefill(&path, pre);
+    prefill_len(&path, pre, content_len(&g, &trees));
     let fmt: String = {
         let ts2 = trees.clone();
         guard(move || {
@@ -244,7 +268,7 @@ pub fn generate(rng: &mut Rng, thorough: bool, out: &mut Out) {
         id += 1;
         if i % 6 == 5 {
             let d = rng.below(5) as u32;
-            let (q, r) = run_save(g.tree(rng, d), rng.below(4), id);
+            let (q, r) = run_save(g.tree(rng, d), rng.below(5), id);
             out.case(q, r);
             continue;
         }
@@ -260,7 +284,7 @@ pub fn generate(rng: &mut Rng, thorough: bool, out: &mut Out) {
             let d = rng.below(4) as u32;
             g.tree(rng, d)
         }).collect();
-        let (q, r) = run_file(setting, trees, rng.below(4), 8, id);
+        let (q, r) = run_file(setting, trees, rng.below(5), 8, id);
         out.case(q, r);
     }
     dup_stream(rng, if thorough { 200 } else { 40 }, &mut id, out);
